@@ -64,6 +64,8 @@ type Chan struct {
 	Cap    int
 	Closed bool
 	Elem   types.Type
+	// Receivers: goroutines waiting in a receive (a send on an unbuffered channel proceeds when one is)
+	Receivers int
 }
 
 type Closure struct {
@@ -266,6 +268,14 @@ type Interp struct {
 	IsLog     func(*ssa.CallCommon) bool
 	InScope   func(*ssa.Function) bool
 	GoInline  bool // run goroutines synchronously at their go statement
+	// Sched: run goroutines under the cooperative scheduler (sched.go); ParentFirst picks the schedule
+	Sched       bool
+	ParentFirst bool
+	sc          *sched
+	// Returned: the function the run started in has returned; goroutines it left behind are running on (see drain)
+	Returned bool
+	// OnGoEnd, when set, is told when a scheduled goroutine has run to completion
+	OnGoEnd func(id int)
 	// OnGo, when set, is told when an inlined goroutine starts (enter) and when it has run to completion
 	OnGo func(g *ssa.Go, enter bool)
 	// FieldOwner: while the oracle is asked for an unset field, the struct type the field is selected from (nil if unknown)
@@ -331,6 +341,9 @@ type Outcome struct {
 	Undecided *Undecided
 	Events    []string
 	Trace     []string
+	// under the scheduler: no goroutine could proceed / how many started goroutines had not finished at the return
+	Deadlock   *Deadlock
+	Unfinished int
 }
 
 // Run interprets fn on args (and optional closure bindings) and classifies the outcome.
@@ -342,12 +355,16 @@ func (ip *Interp) Run(fn *ssa.Function, args []Value, bind []Value) (out Outcome
 				out.Undecided = x
 			case *GoPanic:
 				out.Panic = x
+			case *Deadlock:
+				out.Deadlock = x
 			default:
+				ip.schedFinish()
 				panic(r)
 			}
 		}
 		out.Events = ip.Events
 		out.Trace = ip.Trace
+		out.Unfinished = ip.schedFinish()
 	}()
 	for i, a := range args {
 		if l, ok := a.(*Lazy); ok {
@@ -360,6 +377,7 @@ func (ip *Interp) Run(fn *ssa.Function, args []Value, bind []Value) (out Outcome
 	} else if v != nil {
 		out.Ret = []Value{v}
 	}
+	ip.drain()
 	return
 }
 
@@ -497,14 +515,22 @@ func (ip *Interp) CallFunction(fn *ssa.Function, args []Value, bind []Value) Val
 				if ch.Closed {
 					panic(&GoPanic{Msg: "send on closed channel"})
 				}
-				if len(ch.Q) >= ch.Cap {
-					undecided("a send that blocks until somebody receives (the sequential model cannot schedule the receiver)")
+				val := ip.eval(f, x.X)
+				ip.Block(func() bool { return ch.Closed || len(ch.Q) < ch.Cap+ch.Receivers }, "a send that blocks until somebody receives")
+				if ch.Closed {
+					panic(&GoPanic{Msg: "send on closed channel"})
 				}
-				ch.Q = append(ch.Q, ip.eval(f, x.X))
+				ch.Q = append(ch.Q, val)
 				if ip.OnChan != nil {
 					ip.OnChan("send", ch)
 				}
+				ip.Yield()
 			case *ssa.Go:
+				if ip.Sched {
+					args, _ := ip.evalArgs(f, x.Common())
+					ip.goStart(f, x, args)
+					break
+				}
 				if !ip.GoInline {
 					undecided("go statement in %s", fn)
 				}
@@ -1090,6 +1116,10 @@ func (ip *Interp) builtin(name string, args []Value, site ssa.CallInstruction) V
 			panic(&GoPanic{Msg: "close of closed channel"})
 		}
 		ch.Closed = true
+		if ip.OnChan != nil {
+			ip.OnChan("close", ch)
+		}
+		ip.Yield()
 		return nil
 	case "copy":
 		dst, ok1 := args[0].(*List)
@@ -1258,19 +1288,24 @@ func (ip *Interp) step(f *frame, v ssa.Value) Value {
 			if !ok {
 				undecided("receive from %s", Show(a))
 			}
+			if len(ch.Q) == 0 && !ch.Closed {
+				ch.Receivers++
+				func() {
+					defer func() { ch.Receivers-- }()
+					ip.Block(func() bool { return len(ch.Q) > 0 || ch.Closed }, "a receive that blocks until somebody sends")
+				}()
+			}
 			if len(ch.Q) > 0 {
 				v := ch.Q[0]
 				ch.Q = ch.Q[1:]
 				if ip.OnChan != nil {
 					ip.OnChan("recv", ch)
 				}
+				ip.Yield()
 				if x.CommaOk {
 					return Tuple{v, Bool(true)}
 				}
 				return v
-			}
-			if !ch.Closed {
-				undecided("a receive that blocks until somebody sends (the sequential model cannot schedule the sender)")
 			}
 			if x.CommaOk {
 				return Tuple{ip.ZeroOf(ch.Elem), Bool(false)}
@@ -1493,7 +1528,7 @@ func (ip *Interp) step(f *frame, v ssa.Value) Value {
 		}
 		return &Chan{Cap: int(n), Elem: x.Type().Underlying().(*types.Chan).Elem()}
 	case *ssa.Select:
-		undecided("instruction %T not modelled in %s", v, f.fn)
+		return ip.selectOp(f, x)
 	}
 	undecided("value %T not modelled in %s", v, f.fn)
 	return nil
